@@ -659,3 +659,548 @@ Proof.
   destruct (alpha_plain c A) as (_ & _ & _ & _ & _ & _ & _ & St). rewrite St.
   rewrite <- E, (take_while_end is_word name Ws). rewrite E. reflexivity.
 Qed.
+
+(* ------------------------------------------------------------------ character *)
+(* "*" followed by a parenthesised length *)
+Lemma after_type_star_paren vt body n t :
+  body <> [] -> bal 0 0 body = true -> tail_ok n t = true ->
+  after_type vt (c_star :: c_lpar :: body ++ c_rpar :: blanks n ++ t) = finish_type vt t true (remove_ws body).
+Proof.
+  intros Nb B H. destruct (tail_ok_inv n t H) as (S & N & Z).
+  unfold after_type.
+  set (X := c_star :: c_lpar :: body ++ [c_rpar]).
+  assert (EX : c_star :: c_lpar :: body ++ c_rpar :: blanks n ++ t = X ++ blanks n ++ t)
+    by (unfold X; cbn [app]; now rewrite <- app_assoc).
+  rewrite EX.
+  assert (E : strip (X ++ blanks n ++ t) = X ++ blanks n ++ t).
+  { apply (strip_group_tail X c_star (c_lpar :: body ++ [c_rpar])); auto.
+    unfold X. change (c_star :: c_lpar :: body ++ [c_rpar]) with ((c_star :: c_lpar :: body) ++ [c_rpar]).
+    now rewrite last_last. }
+  rewrite E.
+  assert (G : get_parens (X ++ blanks n ++ t) = Some X).
+  { rewrite <- EX. unfold get_parens. cbn [get_parens_go].
+    change (Ascii.eqb c_star c_lpar) with false. change (Ascii.eqb c_star c_rpar) with false.
+    change (Ascii.eqb c_star c_lbr) with false. change (Ascii.eqb c_star c_rbr) with false.
+    change (stops_parens c_star) with false. cbn [andb]. change (Ascii.eqb c_lpar c_lpar) with true. cbv iota.
+    change (0 + 1)%Z with (Z.of_nat 1). change 0%Z with (Z.of_nat 0) at 1.
+    rewrite (get_parens_body body 0 0 (c_rpar :: blanks n ++ t) [c_lpar; c_star] B).
+    cbn [get_parens_go]. change (Ascii.eqb c_rpar c_lpar) with false. change (Ascii.eqb c_rpar c_rpar) with true.
+    cbv iota. change (1 - 1)%Z with 0%Z.
+    rewrite get_parens_stop by (apply stop_next_blanks; destruct n; [right; exact N|left; discriminate]).
+    cbn [rev]. rewrite rev_app_distr, rev_involutive. reflexivity. }
+  rewrite G, skipn_app_len, (strip_tail n t H).
+  change (prefix [c_star] X) with true. rewrite andb_false_r.
+  unfold X. cbn [varkind_search]. change (Ascii.eqb c_star c_lpar) with false. change (Ascii.eqb c_star c_star) with true.
+  cbv iota. cbn [skip_ws]. change (is_space c_lpar) with false. cbv iota.
+  cbn [take_while]. change (is_digit c_lpar) with false. cbv iota.
+  change (Ascii.eqb c_lpar c_lpar) with true. cbv iota. rewrite before_last_end.
+  unfold kind_args. cbv zeta.
+  assert (St : strip (c_lpar :: body ++ [c_rpar]) = c_lpar :: body ++ [c_rpar]).
+  { apply stripped_strip. unfold stripped. change (is_space c_lpar) with false. cbn [negb andb].
+    change (c_lpar :: body ++ [c_rpar]) with ((c_lpar :: body) ++ [c_rpar]). now rewrite last_last. }
+  rewrite St. change (prefix [c_lpar] (c_lpar :: body ++ [c_rpar])) with true. cbv iota.
+  cbn [tl]. rewrite removelast_last. now rewrite remove_ws_strip.
+Qed.
+
+Lemma split_on_go_none c x : forall cur, existsb (Ascii.eqb c) x = false -> split_on_go c x cur = [rev cur ++ x].
+Proof.
+  induction x as [|d x IH]; intros cur H; simpl.
+  - now rewrite app_nil_r.
+  - simpl in H. apply orb_false_iff in H as [H1 H2]. rewrite Ascii.eqb_sym in H1. rewrite H1.
+    rewrite (IH (d :: cur) H2). simpl. now rewrite <- app_assoc.
+Qed.
+
+Lemma split_on_none c x : existsb (Ascii.eqb c) x = false -> split_on c x = [x].
+Proof. intros H. unfold split_on. now rewrite split_on_go_none. Qed.
+
+Lemma split_on_go_app c a b : forall cur, existsb (Ascii.eqb c) a = false ->
+  split_on_go c (a ++ c :: b) cur = (rev cur ++ a) :: split_on c b.
+Proof.
+  induction a as [|d a IH]; intros cur H; simpl.
+  - rewrite Ascii.eqb_refl. now rewrite app_nil_r.
+  - simpl in H. apply orb_false_iff in H as [H1 H2]. rewrite Ascii.eqb_sym in H1. rewrite H1.
+    rewrite (IH (d :: cur) H2). simpl. now rewrite <- app_assoc.
+Qed.
+
+Lemma split_on_app c a b : existsb (Ascii.eqb c) a = false -> split_on c (a ++ c :: b) = a :: split_on c b.
+Proof. intros H. unfold split_on at 1. now rewrite split_on_go_app. Qed.
+
+Lemma existsb_app_false {A} (f : A -> bool) x y : existsb f x = false -> existsb f y = false -> existsb f (x ++ y) = false.
+Proof. intros H1 H2. rewrite existsb_app, H1, H2. reflexivity. Qed.
+
+Lemma alpha_no x (d : ascii) : is_alpha d = false -> forallb is_alpha x = true -> existsb (Ascii.eqb d) x = false.
+Proof.
+  intros Hd H. apply Bool.not_true_is_false. intros E. apply existsb_exists in E as (c & Hc & Ec).
+  apply Ascii.eqb_eq in Ec. subst c. rewrite forallb_forall in H. specialize (H _ Hc). congruence.
+Qed.
+
+(* "key=value" has no comma when the value has none *)
+Lemma keyeq_no_comma kc key v : forallb is_lower key = true -> existsb (Ascii.eqb c_comma) v = false ->
+  existsb (Ascii.eqb c_comma) (recase kc key ++ c_eq :: v) = false.
+Proof.
+  intros L H. apply existsb_app_false.
+  - apply alpha_no; [reflexivity|now apply alpha_recase].
+  - simpl. exact H.
+Qed.
+
+(* LEN_RE on the three shapes of a length *)
+Lemma len_re_named kc l : simple_len l = true -> len_re (recase kc (s "len") ++ c_eq :: l) = Some l.
+Proof.
+  intros H. unfold len_re. rewrite match_ci_recase by reflexivity.
+  cbn [skip_ws]. change (is_space c_eq) with false. cbv iota. change (Ascii.eqb c_eq c_eq) with true. cbv iota.
+  unfold simple_len in H. apply orb_true_iff in H as [H|H]; [apply orb_true_iff in H as [H|H]|].
+  - destruct l as [|c l]; [discriminate|].
+    rewrite (skip_ws_nospace _ (words_nospace _ H)). now rewrite (take_while_end is_word _ H).
+  - apply seqb_eq in H. subst l. reflexivity.
+  - apply seqb_eq in H. subst l. reflexivity.
+Qed.
+
+Lemma match_ci_digit w d x : w <> [] -> forallb is_lower w = true -> is_digit d = true -> match_ci w (d :: x) = None.
+Proof.
+  destruct w as [|a w]; [congruence|]. intros _ L D. simpl in L. apply andb_true_iff in L as [La _].
+  simpl. destruct (Ascii.eqb a (lower_ch d)) eqn:E; [|reflexivity]. apply Ascii.eqb_eq in E. exfalso.
+  assert (U : is_upper d = false).
+  { unfold is_digit, is_upper in *. apply andb_true_iff in D as [D1 D2]. apply Nat.leb_le in D1, D2.
+    apply andb_false_iff. left. apply Nat.leb_gt. lia. }
+  unfold lower_ch in E. rewrite U in E. subst a.
+  unfold is_digit, is_lower in *. apply andb_true_iff in D as [D1 D2]. apply andb_true_iff in La as [L1 L2].
+  apply Nat.leb_le in D1, D2, L1, L2. lia.
+Qed.
+
+Lemma len_re_digits l : all_digits l = true -> len_re l = Some l.
+Proof.
+  intros H. destruct (all_digits_inv l H) as (N & D). unfold len_re.
+  destruct l as [|d l]; [congruence|]. cbn [forallb] in D. apply andb_true_iff in D as [Dd Dl].
+  rewrite (match_ci_digit (s "len") d l) by (try discriminate; auto).
+  rewrite (take_while_end is_digit (d :: l)) by (cbn [forallb]; now rewrite Dd, Dl). reflexivity.
+Qed.
+
+Lemma len_re_other l : existsb (Ascii.eqb c_eq) l = false -> starts_digit l = false -> len_re l = None.
+Proof.
+  intros E S. unfold len_re.
+  assert (M : match match_ci (s "len") l with
+              | Some r => match skip_ws r with
+                          | c :: r2 => if Ascii.eqb c c_eq
+                                       then match take_while is_word (skip_ws r2) with
+                                            | ((_ :: _) as w, _) => Some w
+                                            | ([], _) => match skip_ws r2 with
+                                                         | d :: _ => if Ascii.eqb d c_star then Some [c_star]
+                                                                     else if Ascii.eqb d c_colon then Some [c_colon] else None
+                                                         | [] => None
+                                                         end
+                                            end
+                                       else None
+                          | [] => None
+                          end
+              | None => None
+              end = None).
+  { destruct (match_ci (s "len") l) as [r|] eqn:Mc; [|reflexivity].
+    destruct (skip_ws r) as [|c r2] eqn:Sk; [reflexivity|].
+    destruct (Ascii.eqb c c_eq) eqn:Ec; [|reflexivity]. exfalso. apply Ascii.eqb_eq in Ec. subst c.
+    destruct (match_ci_suffix _ _ _ Mc) as (p & ->). destruct (skip_ws_suffix r) as (q & Er). rewrite Sk in Er.
+    assert (In c_eq (p ++ r)) by (rewrite Er; apply in_or_app; right; apply in_or_app; right; now left).
+    assert (existsb (Ascii.eqb c_eq) (p ++ r) = true) by (apply existsb_exists; exists c_eq; split; [assumption|apply Ascii.eqb_refl]).
+    congruence. }
+  rewrite M. destruct l as [|d l]; [reflexivity|]. simpl in S. cbn [take_while]. now rewrite S.
+Qed.
+
+(* the first parameter written positionally *)
+Lemma char_first_positional l rest kind :
+  expr_ok l = true -> positional_region l = 0 ->
+  char_params (l :: rest) None kind = char_params rest (Some l) kind.
+Proof.
+  intros E R. destruct (expr_ok_inv l E) as (N & S & Eq & B).
+  unfold positional_region in R. cbn [char_params].
+  destruct (starts_digit l) eqn:Sd.
+  - destruct (all_digits l) eqn:Ad; [|discriminate]. now rewrite (len_re_digits l Ad).
+  - rewrite (len_re_other l Eq Sd). rewrite (kind_re_none l Eq). destruct kind; reflexivity.
+Qed.
+
+Lemma char_first_named kc l rest kind :
+  simple_len l = true ->
+  char_params ((recase kc (s "len") ++ c_eq :: l) :: rest) None kind = char_params rest (Some l) kind.
+Proof. intros H. cbn [char_params]. now rewrite (len_re_named kc l H). Qed.
+
+Lemma len_re_kind_text kc k : len_re (recase kc (s "kind") ++ c_eq :: k) = None.
+Proof.
+  unfold len_re.
+  rewrite (match_ci_lower (s "len")) by (rewrite map_app, lower_recase by reflexivity; reflexivity).
+  destruct (recase_head kc "k"%char (s "ind") eq_refl) as (d & r & E & A & _).
+  change (s "kind") with ("k"%char :: s "ind"). rewrite E. cbn [app take_while].
+  assert (D : is_digit d = false).
+  { unfold is_alpha, is_upper, is_lower, is_digit in *. apply andb_false_iff. right. apply Nat.leb_gt.
+    apply orb_true_iff in A as [A|A]; apply andb_true_iff in A as [A1 A2]; apply Nat.leb_le in A1; lia. }
+  now rewrite D.
+Qed.
+
+Lemma has_quote_false k : existsb is_quote k = false -> has_quote k = false.
+Proof. auto. Qed.
+
+Lemma char_kind_named kc k rest len :
+  expr_ok k = true -> has_comma k = false -> existsb is_quote k = false ->
+  char_params ((recase kc (s "kind") ++ c_eq :: k) :: rest) len None = char_params rest len (Some k).
+Proof.
+  intros E C Q. destruct (expr_ok_inv k E) as (N & S & _ & _).
+  cbn [char_params]. rewrite len_re_kind_text, (kind_re_keyeq kc k N S C).
+  unfold has_quote. rewrite Q. destruct len; reflexivity.
+Qed.
+
+Lemma char_kind_positional k rest l :
+  expr_ok k = true -> char_params (k :: rest) (Some l) None = char_params rest (Some l) (Some k).
+Proof.
+  intros E. destruct (expr_ok_inv k E) as (_ & _ & Eq & _).
+  cbn [char_params]. rewrite (kind_re_none k Eq). destruct (len_re k); reflexivity.
+Qed.
+
+Lemma finish_char t args :
+  finish_type (s "character") t false args =
+  let parts := split_on c_comma args in
+  if 2 <? length parts then value_error
+  else do lk <- char_params parts None None;
+       Ok (mkpt (s "character") t (snd lk) (Some (match fst lk with Some l => l | None => s "1" end)) None).
+Proof. reflexivity. Qed.
+
+Lemma expr_quote k : expr_ok k = true -> existsb is_quote k = false.
+Proof.
+  unfold expr_ok. destruct k; [discriminate|]. intros H.
+  apply andb_true_iff in H as [H _]. apply andb_true_iff in H as [H _]. apply andb_true_iff in H as [_ Q].
+  now apply negb_true_iff.
+Qed.
+
+Lemma remove_ws_comma sp : remove_ws (comma sp) = [c_comma].
+Proof. unfold comma. change (c_comma :: blanks (t_b3 sp)) with ([c_comma] ++ blanks (t_b3 sp)).
+       now rewrite remove_ws_app, remove_ws_bl. Qed.
+
+Lemma bal_comma sp x : bal 0 0 (comma sp ++ x) = bal 0 0 x.
+Proof.
+  unfold comma. change ((c_comma :: blanks (t_b3 sp)) ++ x) with ([c_comma] ++ blanks (t_b3 sp) ++ x).
+  rewrite (bal_noparen_head [c_comma]) by reflexivity. now rewrite bal_noparen_head by apply noparen_blanks.
+Qed.
+
+Lemma bal_app x y : bal 0 0 x = true -> bal 0 0 (x ++ y) = bal 0 0 y.
+Proof.
+  assert (G : forall x l b l' b' y, bal l b x = true -> bal (l + l') (b + b') (x ++ y) = bal l' b' y).
+  { clear. induction x as [|c x IH]; intros l b l' b' y H.
+    - simpl in H. apply andb_true_iff in H as [H1 H2]. apply Nat.eqb_eq in H1, H2. now subst.
+    - cbn [app bal] in *. destruct (Ascii.eqb c c_lpar); [apply (IH (S l) b l' b' y H)|].
+      destruct (Ascii.eqb c c_rpar).
+      { destruct l as [|l]; [discriminate|]. apply (IH l b l' b' y H). }
+      destruct (Ascii.eqb c c_lbr); [apply (IH l (S b) l' b' y H)|].
+      destruct (Ascii.eqb c c_rbr).
+      { destruct b as [|b]; [discriminate|]. apply (IH l b l' b' y H). }
+      apply (IH l b l' b' y H). }
+  intros H. apply (G x 0 0 0 0 y H).
+Qed.
+
+Lemma split_two a b : existsb (Ascii.eqb c_comma) a = false -> existsb (Ascii.eqb c_comma) b = false ->
+  split_on c_comma (a ++ [c_comma] ++ b) = [a; b].
+Proof. intros Ha Hb. cbn [app]. now rewrite (split_on_app c_comma a b Ha), (split_on_none c_comma b Hb). Qed.
+
+Ltac fixty := change (@cons (list ascii)) with (@cons str); change (@nil (list ascii)) with (@nil str).
+
+Theorem type_spellings_char sp l k n t :
+  type_ok sp (AChar l k) = true -> type_region sp (AChar l k) = 0 -> tail_ok n t = true ->
+  parse_type (render_type sp (AChar l k) ++ blanks n ++ t)
+  = Ok (mkpt (s "character") t k (Some (match l with Some x => x | None => s "1" end)) None).
+Proof.
+  intros W R T.
+  assert (Iw : In (s "character") simple_words) by (simpl; auto).
+  assert (P : forall y, parse_type (recase (t_case sp) (s "character") ++ y) = after_type (s "character") y).
+  { intros y. now rewrite (parse_type_word _ (s "character") y Iw eq_refl). }
+  destruct l as [l|], k as [k|]; cbn [render_type type_ok type_region] in *.
+  - (* length and kind *)
+    repeat (apply andb_true_iff in W as [W ?]).
+    apply negb_true_iff in H, H0.
+    rename W into El, H1 into Ek, H0 into Cl, H into Ck.
+    destruct (expr_ok_inv l El) as (Nl & Sl & _ & Bl). destruct (expr_ok_inv k Ek) as (Nk & Sk & _ & Bk).
+    pose proof (expr_quote k Ek) as Qk.
+    rewrite <- app_assoc, P.
+    destruct (t_form sp) as [|[|[|[|f]]]] eqn:Form; rewrite paren_shape.
+    + rewrite after_type_paren; [|apply padded_nonempty; destruct l; [congruence|discriminate]
+                                 |now rewrite bal_padded, (bal_app l _ Bl), bal_comma|exact T].
+      rewrite remove_ws_padded, !remove_ws_app, remove_ws_comma, (remove_ws_id l Sl), (remove_ws_id k Sk).
+      rewrite finish_char. cbv zeta. cbn [app]. rewrite (split_on_app c_comma l k Cl), (split_on_none c_comma k Ck).
+      change (2 <? length [l; k]) with false. cbv match. fixty.
+      rewrite (char_first_positional l [k] None El R), (char_kind_positional k [] l Ek). reflexivity.
+    + rewrite after_type_paren; [|apply padded_nonempty; destruct l; [congruence|discriminate]
+                                 |now rewrite bal_padded, (bal_app l _ Bl), bal_comma|exact T].
+      rewrite remove_ws_padded, !remove_ws_app, remove_ws_comma, (remove_ws_id l Sl), (remove_ws_id k Sk).
+      rewrite finish_char. cbv zeta. cbn [app]. rewrite (split_on_app c_comma l k Cl), (split_on_none c_comma k Ck).
+      change (2 <? length [l; k]) with false. cbv match. fixty.
+      rewrite (char_first_positional l [k] None El R), (char_kind_positional k [] l Ek). reflexivity.
+    + (* len=l, kind=k *)
+      assert (Sl' : simple_len l = true) by (unfold named_region in R; destruct (simple_len l); [reflexivity|discriminate]).
+      rewrite after_type_paren; [|apply padded_nonempty; intros E0; apply app_eq_nil in E0 as [E0 _]; now apply (keyeq_nonempty sp (s "len") l Nl)
+                                 | |exact T].
+      2:{ rewrite bal_padded. rewrite bal_app by (now rewrite bal_keyeq by reflexivity).
+          now rewrite bal_comma, bal_keyeq by reflexivity. }
+      rewrite remove_ws_padded, !remove_ws_app, remove_ws_comma, !remove_ws_keyeq by (try reflexivity; assumption).
+      rewrite finish_char. cbv zeta.
+      rewrite split_two by (apply keyeq_no_comma; [reflexivity|assumption]).
+      change (2 <? 2) with false. cbv match. fixty.
+      rewrite (char_first_named _ l _ None Sl'), (char_kind_named _ k [] (Some l) Ek Ck Qk). reflexivity.
+    + (* kind=k, len=l *)
+      assert (Sl' : simple_len l = true) by (unfold named_region in R; destruct (simple_len l); [reflexivity|discriminate]).
+      rewrite after_type_paren; [|apply padded_nonempty; intros E0; apply app_eq_nil in E0 as [E0 _]; now apply (keyeq_nonempty sp (s "kind") k Nk)
+                                 | |exact T].
+      2:{ rewrite bal_padded. rewrite bal_app by (now rewrite bal_keyeq by reflexivity).
+          now rewrite bal_comma, bal_keyeq by reflexivity. }
+      rewrite remove_ws_padded, !remove_ws_app, remove_ws_comma, !remove_ws_keyeq by (try reflexivity; assumption).
+      rewrite finish_char. cbv zeta.
+      rewrite split_two by (apply keyeq_no_comma; [reflexivity|assumption]).
+      change (2 <? 2) with false. cbv match. fixty.
+      rewrite (char_kind_named _ k _ None Ek Ck Qk), (char_first_named _ l [] (Some k) Sl'). reflexivity.
+    + (* l, kind=k *)
+      rewrite after_type_paren; [|apply padded_nonempty; destruct l; [congruence|discriminate]
+                                 | |exact T].
+      2:{ rewrite bal_padded, (bal_app l _ Bl), bal_comma. now rewrite bal_keyeq by reflexivity. }
+      rewrite remove_ws_padded, !remove_ws_app, remove_ws_comma, (remove_ws_id l Sl), remove_ws_keyeq by (try reflexivity; assumption).
+      rewrite finish_char. cbv zeta.
+      rewrite split_two by (try (apply keyeq_no_comma; [reflexivity|assumption]); assumption).
+      change (2 <? 2) with false. cbv match. fixty.
+      rewrite (char_first_positional l _ None El R), (char_kind_named _ k [] (Some l) Ek Ck Qk). reflexivity.
+  - (* length only *)
+    apply andb_true_iff in W as [El Cl]. apply negb_true_iff in Cl.
+    destruct (expr_ok_inv l El) as (Nl & Sl & _ & Bl).
+    rewrite <- app_assoc, P.
+    destruct (t_form sp) as [|[|f]] eqn:Form.
+    + destruct (t_bstar sp =? 0) eqn:Bs; [|discriminate]. apply Nat.eqb_eq in Bs. rewrite Bs. cbn [blanks repeat app].
+      destruct (all_digits l) eqn:Ad.
+      * destruct (all_digits_inv l Ad) as (_ & Dl). now rewrite (after_type_star _ l n t Nl Dl T).
+      * cbn [app]. rewrite <- app_assoc. cbn [app].
+        rewrite (after_type_star_paren _ l n t Nl Bl T). now rewrite (remove_ws_id l Sl).
+    + rewrite paren_shape.
+      rewrite after_type_paren; [|now apply padded_nonempty|now rewrite bal_padded|exact T].
+      rewrite remove_ws_padded, (remove_ws_id l Sl), finish_char. cbv zeta.
+      rewrite (split_on_none c_comma l Cl). change (2 <? 1) with false. cbv match. fixty.
+      now rewrite (char_first_positional l [] None El R).
+    + assert (Sl' : simple_len l = true) by (unfold named_region in R; destruct (simple_len l); [reflexivity|discriminate]).
+      rewrite paren_shape.
+      rewrite after_type_paren; [|apply padded_nonempty, keyeq_nonempty, Nl
+                                 |now rewrite bal_padded, bal_keyeq by reflexivity|exact T].
+      rewrite remove_ws_padded, remove_ws_keyeq by (try reflexivity; exact Sl). rewrite finish_char. cbv zeta.
+      rewrite split_on_none by (apply keyeq_no_comma; [reflexivity|exact Cl]).
+      change (2 <? 1) with false. cbv match. fixty. now rewrite (char_first_named _ l [] None Sl').
+  - (* kind only *)
+    apply andb_true_iff in W as [Ek Ck]. apply negb_true_iff in Ck.
+    destruct (expr_ok_inv k Ek) as (Nk & Sk & _ & Bk). pose proof (expr_quote k Ek) as Qk.
+    rewrite <- app_assoc, P, paren_shape.
+    rewrite after_type_paren; [|apply padded_nonempty, keyeq_nonempty, Nk
+                               |now rewrite bal_padded, bal_keyeq by reflexivity|exact T].
+    rewrite remove_ws_padded, remove_ws_keyeq by (try reflexivity; exact Sk). rewrite finish_char. cbv zeta.
+    rewrite split_on_none by (apply keyeq_no_comma; [reflexivity|exact Ck]).
+    change (2 <? 1) with false. cbv match. fixty. now rewrite (char_kind_named _ k [] None Ek Ck Qk).
+  - (* bare *)
+    rewrite P. now rewrite (after_type_none _ n t T).
+Qed.
+
+(* ------------------------------------------------------------------ all type spellings *)
+Definition spec_parsed (T : atype) (rest : str) : ptype :=
+  let '(vt, k, l, p) := spec_ptype T in mkpt vt rest k l p.
+
+Theorem type_spellings sp T n t :
+  type_ok sp T = true -> type_region sp T = 0 -> tail_ok n t = true ->
+  parse_type (render_type sp T ++ blanks n ++ t) = Ok (spec_parsed T t).
+Proof.
+  intros W R H. destruct T as [b k| | |l k|cls name].
+  - now apply type_spellings_num.
+  - apply (type_spellings_double sp false n t R H).
+  - apply (type_spellings_double sp true n t R H).
+  - now apply type_spellings_char.
+  - unfold spec_parsed. cbn [spec_ptype]. now apply type_spellings_derived.
+Qed.
+
+(* the full statement, without the region hypothesis, is false of the code *)
+Definition type_spellings_statement : Prop :=
+  forall sp T n t, type_ok sp T = true -> tail_ok n t = true ->
+    parse_type (render_type sp T ++ blanks n ++ t) = Ok (spec_parsed T t).
+
+Definition plain_sp : tspell := mkts [] [] 0 0 0 0 0 1.
+
+Example type_spellings_nonvacuous :
+  let sp := mkts [true; false; true] [true] 1 1 1 2 0 1 in
+  let T := ANum BReal (Some (s "selected_real_kind(6)")) in
+  type_ok sp T = true /\ type_region sp T = 0 /\ tail_ok 0 (s ", intent(in) :: x") = true /\
+  render_type sp T = s "ReAl ( Kind  =  selected_real_kind(6) )" /\
+  type_ok plain_sp (AChar (Some (s "*")) (Some (s "ck"))) = true /\ tail_ok 1 (s "x") = true.
+Proof. repeat split; vm_compute; reflexivity. Qed.
+
+Theorem type_spellings_refuted_double :
+  exists sp T n t, type_ok sp T = true /\ tail_ok n t = true /\ type_region sp T = 1 /\
+    parse_type (render_type sp T ++ blanks n ++ t) = Ok (mkpt (s "doubleprecision") t None None None).
+Proof. exists (mkts [] [] 0 0 0 0 0 0), ADouble, 1, (s "x"). repeat split; vm_compute; reflexivity. Qed.
+
+Theorem type_spellings_refuted_star :
+  exists sp T n t, type_ok sp T = true /\ tail_ok n t = true /\ type_region sp T = 2 /\
+    parse_type (render_type sp T ++ blanks n ++ t) = Err (s "ValueError").
+Proof. exists (mkts [] [] 2 0 0 0 1 1), (ANum BReal (Some (s "8"))), 1, (s "x"). repeat split; vm_compute; reflexivity. Qed.
+
+Theorem character_spellings_refuted_len :
+  exists sp T n t, type_ok sp T = true /\ tail_ok n t = true /\ type_region sp T = 3 /\
+    parse_type (render_type sp T ++ blanks n ++ t) = Ok (mkpt (s "character") t None (Some (s "n")) None) /\
+    spec_parsed T t = mkpt (s "character") t None (Some (s "n+1")) None.
+Proof. exists (mkts [] [] 2 0 0 0 0 1), (AChar (Some (s "n+1")) None), 1, (s "c"). repeat split; vm_compute; reflexivity. Qed.
+
+Theorem type_spellings_refuted_kind_comma :
+  exists sp T n t, type_ok sp T = true /\ tail_ok n t = true /\ type_region sp T = 4 /\
+    parse_type (render_type sp T ++ blanks n ++ t) = Ok (mkpt (s "real") t (Some (s "selected_real_kind(6")) None None).
+Proof.
+  exists (mkts [] [] 1 0 0 0 0 1), (ANum BReal (Some (s "selected_real_kind(6,37)"))), 1, (s "r").
+  repeat split; vm_compute; reflexivity.
+Qed.
+
+Theorem type_spellings_refuted : ~ type_spellings_statement.
+Proof.
+  intros H. specialize (H (mkts [] [] 0 0 0 0 0 0) ADouble 1 (s "x") eq_refl eq_refl).
+  vm_compute in H. discriminate H.
+Qed.
+
+(* the report does not depend on the spelling: letter case of every keyword, the three ways of
+   writing a kind, every order of len= / kind=, blanks *)
+Theorem case_invariance sp sp' T n t :
+  type_ok sp T = true -> type_region sp T = 0 -> type_ok sp' T = true -> type_region sp' T = 0 ->
+  tail_ok n t = true ->
+  parse_type (render_type sp T ++ blanks n ++ t) = parse_type (render_type sp' T ++ blanks n ++ t).
+Proof. intros. now rewrite !type_spellings. Qed.
+
+Example case_invariance_example :
+  parse_type (s "INTEGER*4 x") = parse_type (s "integer ( Kind = 4 ) x") /\
+  parse_type (s "character(len=*, kind=ck) c") = parse_type (s "CHARACTER ( KIND = ck , LEN = * ) c") /\
+  parse_type (s "Double   Precision x") = parse_type (s "double precision x").
+Proof. repeat split; vm_compute; reflexivity. Qed.
+
+(* attributes that are kept as text keep their spelling: the report depends on letter case *)
+Definition attr_case_statement : Prop :=
+  forall sp sp' d,
+    type_ok (ds_type sp) (d_type d) = true -> type_ok (ds_type sp') (d_type d) = true ->
+    type_region (ds_type sp) (d_type d) = 0 -> type_region (ds_type sp') (d_type d) = 0 ->
+    ds_dimattr sp = false -> ds_dimattr sp' = false ->
+    declaration (render_decl sp d) (s "public") = declaration (render_decl sp' d) (s "public").
+
+Definition upper_dspell : dspell := mkds plain_sp true false [true; true; true; true; true; true] 0 false 1.
+Definition target_decl : adecl :=
+  mkdecl (ANum BInteger None) false None false [s "target"] [mkent (s "w") None false None].
+
+Theorem case_invariance_refuted_attribute : ~ attr_case_statement.
+Proof.
+  intros H.
+  specialize (H plain_dspell upper_dspell target_decl eq_refl eq_refl eq_refl eq_refl eq_refl eq_refl).
+  vm_compute in H. discriminate H.
+Qed.
+
+Example attribute_case_witness :
+  render_decl upper_dspell target_decl = s "integer, TARGET :: w" /\
+  match declaration (s "integer, TARGET :: w") (s "public"), declaration (s "integer, target :: w") (s "public") with
+  | Ok [v], Ok [v'] => list_eqb seqb (v_attribs v) [s "TARGET"] && list_eqb seqb (v_attribs v') [s "target"]
+  | _, _ => false
+  end = true.
+Proof. split; vm_compute; reflexivity. Qed.
+
+(* ------------------------------------------------------------------ attribute statements *)
+Lemma paren_split_words sep x : forallb is_word x = true -> is_word sep = false ->
+  paren_split sep x = [x].
+Proof.
+  intros W Hs. unfold paren_split.
+  assert (G : forall y cur, forallb is_word y = true -> paren_split_go sep y 0%Z 0%Z cur = [rev cur ++ y]).
+  { induction y as [|c y IH]; intros cur H; simpl.
+    - now rewrite app_nil_r.
+    - simpl in H. apply andb_true_iff in H as [Hc Hy].
+      destruct (word_plain c Hc) as (_ & A & B & C & D & _). rewrite A, B, C, D.
+      assert (E : Ascii.eqb c sep = false).
+      { destruct (Ascii.eqb c sep) eqn:E; [|reflexivity]. apply Ascii.eqb_eq in E. subst. congruence. }
+      rewrite E. cbn [andb]. rewrite (IH (c :: cur) Hy). simpl. now rewrite <- app_assoc. }
+  apply (G x [] W).
+Qed.
+
+Lemma words_stripped x : forallb is_word x = true -> strip x = x.
+Proof.
+  intros W. apply stripped_strip. destruct x as [|c r]; [reflexivity|]. unfold stripped.
+  rewrite forallb_forall in W. apply andb_true_iff. split; apply negb_true_iff.
+  - destruct (word_plain c (W c (or_introl eq_refl))) as (S & _). exact S.
+  - assert (I : In (last (c :: r) c) (c :: r)).
+    { destruct (exists_last (l := c :: r)) as (y & a & E); [discriminate|]. rewrite E, last_last.
+      apply in_or_app. right. now left. }
+    destruct (word_plain _ (W _ I)) as (S & _). exact S.
+Qed.
+
+Lemma lower_word c : is_word c = true -> is_word (lower_ch c) = true.
+Proof.
+  intros H. unfold lower_ch. destruct (is_upper c) eqn:U; [|exact H].
+  unfold is_upper in U. apply andb_true_iff in U as [U1 U2]. apply Nat.leb_le in U1, U2.
+  unfold is_word, is_alpha, is_lower, code. rewrite nat_ascii_embedding by (unfold code in *; lia).
+  unfold code in *.
+  replace ((97 <=? nat_of_ascii c + 32) && (nat_of_ascii c + 32 <=? 122)) with true; [now rewrite orb_true_r|].
+  symmetry. apply andb_true_iff. split; apply Nat.leb_le; lia.
+Qed.
+
+Lemma lower_words x : forallb is_word x = true -> forallb is_word (lower x) = true.
+Proof.
+  intros H. unfold lower. apply forallb_forall. intros c Hc. apply in_map_iff in Hc as (d & <- & Hd).
+  rewrite forallb_forall in H. now apply lower_word, H.
+Qed.
+
+Lemma find_ch_words c x : forallb is_word x = true -> is_word c = false -> find_ch c x = None.
+Proof.
+  intros W Hc. induction x as [|d x IH]; [reflexivity|]. simpl in W. apply andb_true_iff in W as [Wd Wx].
+  simpl. destruct (Ascii.eqb c d) eqn:E; [apply Ascii.eqb_eq in E; subst; congruence|]. now rewrite (IH Wx).
+Qed.
+
+Lemma record_dimlike st g1 a name :
+  remove_blanks (lower g1) = a -> seqb a (s "data") = false ->
+  one_of a [s "dimension"; s "allocatable"; s "pointer"] = true ->
+  forallb is_word name = true ->
+  record_attribute st g1 name = Ok (mkas (dict_append (lower name) a (as_attr st)) (as_param st)).
+Proof.
+  intros E D O W. unfold record_attribute. rewrite E, D, O.
+  rewrite (paren_split_words c_comma name W eq_refl). cbn [fold_left].
+  rewrite (words_stripped name W), (find_ch_words c_lpar (lower name) (lower_words _ W) eq_refl).
+  now rewrite app_nil_r.
+Qed.
+
+Lemma record_plain st g1 a name :
+  remove_blanks (lower g1) = a -> seqb a (s "data") = false ->
+  one_of a [s "dimension"; s "allocatable"; s "pointer"] = false -> seqb a (s "parameter") = false ->
+  forallb is_word name = true ->
+  record_attribute st g1 name = Ok (mkas (dict_append (lower name) a (as_attr st)) (as_param st)).
+Proof.
+  intros E D O P W. unfold record_attribute. rewrite E, D, O, P.
+  rewrite (paren_split_words c_comma name W eq_refl). cbn [fold_left bind].
+  now rewrite (words_stripped name W).
+Qed.
+
+Lemma apply_text_attr params v a :
+  one_of a [s "public"; s "private"; s "protected"] = false -> seqb (firstn 6 a) (s "intent") = false ->
+  dim_re a = false -> seqb a (s "parameter") = false ->
+  apply_attr params (Ok v) a = Ok (set_attribs v (v_attribs v ++ [a])).
+Proof. intros A B C D. unfold apply_attr. cbn [bind]. now rewrite A, B, C, D. Qed.
+
+(* attributes that both forms report as a piece of text *)
+Definition text_attrs : list str :=
+  [s "allocatable"; s "pointer"; s "target"; s "save"; s "volatile"; s "asynchronous"; s "value"].
+
+(* For each of these attributes: the attribute statement [a :: name] after a declaration without
+   the attribute gives the variable that the declaration with the attribute gives (written in
+   lower case on the declaration). *)
+Theorem attr_stmt_equiv a v acc :
+  In a text_attrs -> forallb is_word (v_name v) = true ->
+  (exists st, record_attribute (mkas [] []) a (v_name v) = Ok st /\
+              process_attribs st [v] = Ok [set_attribs v (v_attribs v ++ [a])])
+  /\ classify acc a = mkacc (a_attribs acc ++ [a]) (a_intent acc) (a_optional acc) (a_permission acc) (a_parameter acc).
+Proof.
+  intros Ha W. unfold text_attrs in Ha.
+  assert (Fin : forall st, as_attr st = [(lower (v_name v), [a])] ->
+                (one_of a [s "public"; s "private"; s "protected"] = false) ->
+                seqb (firstn 6 a) (s "intent") = false -> dim_re a = false -> seqb a (s "parameter") = false ->
+                process_attribs st [v] = Ok [set_attribs v (v_attribs v ++ [a])]).
+  { intros st E A B C D. unfold process_attribs. cbn [mapM]. rewrite E. cbn [dict_get]. rewrite seqb_refl.
+    cbn [fold_left]. now rewrite (apply_text_attr _ v a A B C D). }
+  destruct Ha as [<-|[<-|Ha]].
+  - split; [|reflexivity]. eexists. split; [apply (record_dimlike _ _ (s "allocatable")); try reflexivity; exact W|].
+    apply Fin; reflexivity.
+  - split; [|reflexivity]. eexists. split; [apply (record_dimlike _ _ (s "pointer")); try reflexivity; exact W|].
+    apply Fin; reflexivity.
+  - repeat (destruct Ha as [<-|Ha];
+            [split; [|reflexivity]; eexists; split;
+             [eapply record_plain; try reflexivity; exact W|apply Fin; reflexivity]|]).
+    destruct Ha.
+Qed.
